@@ -305,14 +305,15 @@ func parseFields(line string) ([]string, error) {
 			} else if c == quote {
 				quote = 0
 			} else if c == '\\' {
-				if len(line) > p {
-					c2 := line[p+1]
-					if c2 == '*' {
-						field = append(field, c)
-					}
-					p++
-					field = append(field, c2)
+				if p + 1 >= len(line) {
+					return nil, fmt.Errorf("backslash at end of line")
 				}
+				c2 := line[p+1]
+				if c2 == '*' {
+					field = append(field, c)
+				}
+				p++
+				field = append(field, c2)
 			} else {
 				field = append(field, c)
 			}
